@@ -13,6 +13,7 @@ I = z3.IntSort()
 CONJ = z3.Function('conj', R, R)
 SQRT = z3.Function('sqrt_', R, R)
 ABS = z3.Function('abs_', R, R)
+R32 = z3.Function('round32_', R, R)      # rounding of a double precision scalar to float32 (uninterpreted; identity on 0, +-1, small dyadics)
 
 _cnt = itertools.count()
 
